@@ -353,12 +353,15 @@ theorem carryOne_from (s : St) (p : Path) (a : Addr) (m : Method) (force : Bool)
   unfold St.carryOne
   split
   · apply cacheFrom_of_eq; rw [recheckFromCache_cache]; rfl
-  · exact carryOneMove_from s p a m force h
+  · split
+    · apply cacheFrom_of_eq; rw [recheckFromCache_cache]; rfl
+    · exact carryOneMove_from s p a m force h
 
 /-- also with `--force`: nothing is removed when the path is a link to the object itself -/
 theorem carryOne_keep (s : St) (p : Path) (a : Addr) (m : Method) :
     CacheKeep s (s.carryOne p a m false).1 := by
   unfold St.carryOne
+  simp only [Bool.false_and, Bool.false_eq_true, if_false]
   split
   · apply cacheKeep_of_eq; rw [recheckFromCache_cache]; rfl
   · exact carryOneMove_keep s p a m
